@@ -705,21 +705,42 @@ fn run_in(c: &Sexp) -> Sexp {
     assert_eq!(exec::spawned(), if local { 2 } else { 1 }, "the node spawns one task");
     let mut vis: Vec<usize> = vec![exec::spawned() - 1];
     run_ticks(&vis);
+    // the dependents live under an owner of their own, which the history can pause and resume
+    // (events 10 / 11); dep = 3: an effect and a nested async derived value that reads the node
+    let dep_scope = Owner::new();
+    let nested_dep = c.at(2).num() == 3;
+    let mut nested: Option<ArcAsyncDerived<i64>> = None;
     if dep {
         let n = node.clone();
         let s2 = sigs[2].clone();
         // dep = 2: the dependent also reads a memo over the third signal, so it can be woken
         // by a mere check and then asks the node whether it changed
         let mt = ArcMemo::new(move |_| s2.get().div_euclid(2));
-        let _e = Effect::new(move |_| {
-            let v = n.get();
-            if dep_memo {
-                let _ = mt.get();
-            }
-            DEPLOG.with(|l| l.borrow_mut().push(opt(v)));
+        let _e = dep_scope.with(|| {
+            Effect::new(move |_| {
+                let v = n.get();
+                if dep_memo {
+                    let _ = mt.get();
+                }
+                DEPLOG.with(|l| l.borrow_mut().push(opt(v)));
+            })
         });
         assert_eq!(exec::spawned(), vis[0] + 2, "the dependent effect spawns one task");
         vis.push(vis[0] + 1);
+        if nested_dep {
+            // not Send (the node may be a local one): new_unsync
+            let n2 = node.clone();
+            let d2 = dep_scope.with(|| {
+                ArcAsyncDerived::new_unsync(move || {
+                    // the nested value loads "what the node held + 1" (-1 while it holds nothing)
+                    let v = n2.get();
+                    mk_fut(v.map(|v| v + 1).unwrap_or(-1))
+                })
+            });
+            assert_eq!(exec::spawned(), vis[0] + 3, "the nested async derived value spawns one task");
+            vis.push(vis[0] + 2);
+            nested = Some(d2);
+        }
     }
     let vis = vis;
     let sync_reads = c.at(4).list().iter().any(|e| e.at(0).num() == 9);
@@ -740,7 +761,11 @@ fn run_in(c: &Sexp) -> Sexp {
             Lst(DEPLOG.with(|l| std::mem::take(&mut *l.borrow_mut()))),
             Num(FUTS.with(|f| f.borrow().len()) as i64),
             Num(suspense.tasks.with_untracked(|t| t.len()) as i64),
-        ])
+        ]
+        .into_iter()
+        // dep = 3 only: what the nested async derived value holds
+        .chain(nested.iter().map(|d| opt(d.get_untracked())))
+        .collect())
     };
     let poll_awaiter = |a: &mut Awaiter| {
         if a.fut.is_some() {
@@ -819,6 +844,8 @@ fn run_in(c: &Sexp) -> Sexp {
                     poll_awaiter(aw);
                 }
             }
+            10 => dep_scope.pause(),
+            11 => dep_scope.resume(),
             9 => {
                 // a synchronous read under the Suspense boundary: takes one of the boundary's
                 // tasks and spawns a helper that gives it back once the node is ready
